@@ -132,7 +132,15 @@ class Analysis:
         self.prog = prog
         self.mode = mode              # 'inv' (loop invariants) | 'unroll'
         self.raise_ops = raise_ops
-        self.summaries = summaries or {}
+        self.summaries = dict(summaries or {})
+        # a summarised function may have been moved behind an alias (module-level name bound to a static method, a
+        # re-export...): the summary follows the name to whatever it resolves to now
+        for k, v in list(self.summaries.items()):
+            try:
+                short = prog.func(k).short
+            except Exception:
+                continue
+            self.summaries.setdefault(short, v)
         self.max_paths = max_paths
         self.unroll = unroll
         self.max_depth = max_depth
@@ -456,6 +464,10 @@ class Interp(ExprMixin, LoopMixin, CallMixin):
             self.frames.pop()
 
     # ---------------------------------------------------------------- statements
+    def raise_mode(self):
+        """raising operations fork (escape analysis): a repeated parse must fork again, so results are not memoised"""
+        return bool(self.an.raise_ops)
+
     def exec_block(self, stmts):
         for st in stmts:
             self.exec_stmt(st)
